@@ -127,8 +127,14 @@ BUILTIN_RESULTS = [("range1", "r = range(3)\nx = r[2]\nr[2] = x + 5\n[x, range(3
                    ("sort-range", "sort = import(\"sort\")\nr = range(5)\nsort.Slice(r, func(i, j) { return r[i] > r[j] })\n[r, range(5)]"), ("strings-split", "strings = import(\"strings\")\np = strings.Split(\"a,b\", \",\")\nx = p[0]\np[0] = x + \"!\"\n[x, strings.Split(\"a,b\", \",\")]")]
 
 
+# resource-hungry runs next to each other: each has what it has alone (the harness hands ONE non-nil *vm.Options to every run of the process, as a host does that keeps its options in a variable)
+HUNGRY = [("deep-recursion-%d" % d, "func r(n) {\n if n == 0 {\n  return 0\n }\n return r(n - 1) + 1\n}\nr(%d)" % d) for d in (3000, 6000, 9000)] + \
+         [("deep-mutual-6000", "func ra(n) {\n if n == 0 {\n  return 0\n }\n return rb(n - 1) + 1\n}\nfunc rb(n) {\n return ra(n)\n}\nra(6000)"),
+          ("many-calls", "func inc(x) {\n return x + 1\n}\nn = 0\nfor i = 0; i < 30000; i++ {\n n = inc(n)\n}\nn"), ("big-list-build", "a = []\nfor i = 0; i < 20000; i++ {\n a += i\n}\nlen(a)")]
+
+
 def cases():
-    return ([{"id": "raw-builtin-" + n, "src": s, "core": True} for n, s in BUILTIN_RESULTS] + [{"id": "raw-" + n, "src": s, "concfirst": True} for n, s in FRESH] + [{"id": "raw-" + n, "src": s} for n, s in GOARGS] +
+    return ([{"id": "raw-hungry-" + n, "src": s, "concfirst": True} for n, s in HUNGRY] + [{"id": "raw-builtin-" + n, "src": s, "core": True} for n, s in BUILTIN_RESULTS] + [{"id": "raw-" + n, "src": s, "concfirst": True} for n, s in FRESH] + [{"id": "raw-" + n, "src": s} for n, s in GOARGS] +
             [{"id": "raw-" + n, "src": s} for n, s in RAW] +
             [{"id": "raw-" + n, "src": s, "variants": ["int64", "float64", "string"]} for n, s in VARIANT] +
             [{"id": "raw-envpair-%s-%s" % (n, how), "src": b, "pair": {"s0": s0, "a": a, "how": how}} for n, s0, a, b in ENVPAIRS for how in ("Copy", "DeepCopy", "NestedDeepCopy")] +
